@@ -39,9 +39,16 @@ package local
 //@   ensures err == nil ==> result0.BlockIndex >= 0 && result0.OffsetBytes >= 0 && result0.SizeBytes >= 0
 //@         && result0.OffsetBytes + result0.SizeBytes <= 4611686018427387904
 //@         && sub(result0.BlockIndex, result0.OffsetBytes, result0.SizeBytes)
+// Write log of an index (C10): wcount(klm) entries have been stored so far,
+// the n-th under key wkey(klm, n).
+//@ ghost wcount(ref) int
+//@ ghost wkey(ref, int) intarr
 //@ iface KeyLocationMap.Put
 //@   requires [write-locked] held(guard(self)) == 2
 //@   requires [committed] committed(location.BlockIndex, location.OffsetBytes, location.SizeBytes)
+//@   modifies wcount(self), wkey(self)
+//@   ensures wcount(self) == old(wcount(self)) + 1 && wkey(self, old(wcount(self))) == key
+//@   ensures forall n :: n != old(wcount(self)) ==> wkey(self, n) == old(wkey(self, n))
 
 //@ iface LocationBlobMap.Get
 //@   requires [locked] held(guard(self)) >= 1
@@ -63,12 +70,17 @@ package local
 // The writer copies the buffer; B-SIZE: the buffer has the size that was allocated.
 //@ iface LocationBlobPutWriter.call
 //@   requires [b-size] bsize(b) == psize(self)
-//@   ensures result != nil && psize(result) == psize(self) && pmap(result) == pmap(self)
+//@   ensures result != nil && psize(result) == psize(self) && pmap(result) == pmap(self) && pbuf(result) == b
 
+// pbuf(f): the buffer a finalizer's writer copied. A finalizer succeeds only
+// if that copy succeeded (verified for the allocators' closures: Put$1$1
+// "error-propagated"), i.e. the buffer was consumed completely and validly.
+//@ ghost pbuf(ref) int
 //@ iface LocationBlobPutFinalizer.call
 //@   requires [write-locked] held(guard(pmap(self))) == 2
 //@   modifies committed, epoch(pmap(self))
 //@   ensures forall b, o, s :: old(committed(b, o, s)) ==> committed(b, o, s)
+//@   ensures err == nil ==> drained(pbuf(self)) == 1
 //@   ensures err == nil ==> result0.BlockIndex >= 0 && result0.OffsetBytes >= 0 && result0.SizeBytes == psize(self)
 //@         && result0.OffsetBytes + result0.SizeBytes <= 4611686018427387904
 //@         && sub(result0.BlockIndex, result0.OffsetBytes, result0.SizeBytes)
